@@ -707,7 +707,9 @@ def run_obsenum(ctx, cells, probes):
     gen = dict(family="obsenum", dir=d, seqs=seqs, nseq=n, generated=0, distinct=0, wall=0, design_violation=None)
     ctx.stats["families"].append(dict(family="obsenum", sequences=n,
                                       note="registration / unregistration orders of <= 3 observers per event type (ArkObs behaviours) + stimulus script"))
-    replay_family(ctx, gen, cells, 1000, probes)
+    # thorough: every history, in as many log shards as an event budget of 9 M asks for (quick: a 10 % sample, see
+    # obsenum_sequences, in the default number of shards)
+    replay_family(ctx, gen, cells, 1000, probes, budget=None if ctx.tier == "quick" else 9000000)
 
 
 def choose_cells(ctx, cells):
